@@ -133,6 +133,10 @@ def run(ctx, P):
                 idx = {"cidx+": m - 1, "cidx-1": -1, "cidx-2": -2}[op]
                 if m < 2:
                     continue
+                # the stored reading of that candle is dropped first: calculate_index must really compute the index it
+                # is given (a call that silently does nothing would otherwise 'reproduce' everything)
+                tgt = hx.indicator(xname).candles[idx]
+                tgt.indicators.pop(xname, None)
                 hx.calculate_index(xname, idx)
                 ctx.equal("calculate_index-reproduces" + lab, state(hx), before)
                 continue
